@@ -1008,6 +1008,19 @@ impl Transaction {
             return false;
         }
 
+        // rebroadcast and fee transactions are generated by the block itself, nobody routed them
+        // anywhere : they carry no routing path. (a path is covered neither by the rebroadcast
+        // hash nor by a signature, and the fee a rebroadcast charges would otherwise count as
+        // routing work of whoever is named in an attached hop)
+        if matches!(
+            self.transaction_type,
+            TransactionType::ATR | TransactionType::Fee
+        ) && !self.path.is_empty()
+        {
+            error!("ERROR 482035: block-generated transaction carries a routing path");
+            return false;
+        }
+
         // Fee Transactions are validated in the block class. There can only
         // be one per block, and they are checked by ensuring the transaction hash
         // matches our self-generated safety check. We do not need to validate
